@@ -5,4 +5,4 @@ Extraction Language OCaml.
 Set Extraction KeepSingleton.
 Extraction "model_visit.ml"
   Z.add Z.sub Z.mul Z.div Z.modulo Z.abs Z.opp Z.leb Z.ltb Z.eqb Z.of_nat Z.to_nat Z.of_N Z.to_N
-  errno jv json_c_visit spec_visit run_progs spec_prog.
+  errno jv json_c_visit_ff spec_visit run_progs spec_prog.
